@@ -328,10 +328,30 @@ type writeSet struct {
 	whole                 map[string]bool
 	everything            bool
 	everythingUnprotected bool
+	keptSet               bool
+	kept                  map[string]string
 }
 
 func newWriteSet() *writeSet {
 	return &writeSet{regs: map[regKey]bool{}, comps: map[string]map[string]bool{}, wins: map[string][][2]string{}, whole: map[string]bool{}}
+}
+
+// noteKeeps intersects the kept components of the "assigns everything" calls seen in the loop body.
+func (w *writeSet) noteKeeps(kept [][2]string) {
+	m := map[string]string{}
+	for _, k := range kept {
+		m[k[0]] = k[1]
+	}
+	if !w.keptSet {
+		w.keptSet = true
+		w.kept = m
+		return
+	}
+	for k := range w.kept {
+		if _, ok := m[k]; !ok {
+			delete(w.kept, k)
+		}
+	}
 }
 
 func (w *writeSet) addWin(leaf, ref, lo, hi string) {
